@@ -123,7 +123,7 @@ def run_check(prop, tier, jobs, level_note, assumptions, bounds, seed=None, extr
             # a reproduced violation settles the verdict; the remaining jobs are skipped
             log("job %s: skipped (a violation was already reproduced)" % job.label)
             continue
-        budget = min(job.budget_s, 420) if tier == "quick" else job.budget_s
+        budget = min(job.budget_s, 900) if tier == "quick" else job.budget_s
         recs, dt = engine.run_harness(prog, job.harness, job.params, job.opts, budget_s=budget)
         s = engine.summarize(recs)
         for k in ("paths", "ok", "panic", "pruned", "stmts", "queries", "solver_time", "forks"):
